@@ -134,9 +134,9 @@ def check_guards(ctx, cfg):
                 dst = cp.args[1]
                 dty = tstr(a.local_ty(dst[1][1])) if dst[0] == "P" and dst[1][0] == "local" else ""
                 whole = dst[0] == "P" and not dst[2].t and "GenericArray<" in dty and "MaybeUninit<" in dty and a.as_poly(cp.args[2]) == N
-                ai = [c for c in a.calls if c.fn.endswith("::assume_init")]
+                ai = [c for c in a.calls if c.fn.endswith("::assume_init") or c.fn.endswith("::array_assume_init")]  # the by-value hand-over of the filled array
                 ret_ok = bool(oks) and len(ai) == 1 and all(g["ops"][0] == ai[0].ret for g in oks)
-                foreign = [c.fn for c in a.calls if cl.classify(c, b) == "foreign" and (a.dominates(cp.bb, c.bb) or a.dominates(sl.bb, c.bb)) and c not in (cp, sl)
+                foreign = [c.fn for c in a.calls if cl.classify(c, b) == "foreign" and (a.dominates(cp.bb, c.bb) or a.dominates(sl.bb, c.bb)) and c not in (cp, sl) and c not in ai
                            and not any(a.dominates(g["site"][0], c.bb) for g in oks)]
                 ok = guard
                 src_ok = zero and from_start and whole and ret_ok and not foreign
